@@ -36,6 +36,26 @@ static Case gen_case() {
   } else {
     c.h = gen_add_history(size * 2);
   }
+  if (chance(2)) {
+    // thousands of one-entry blocks through a wide pool: many blocks in flight at once, so statistics that are updated by
+    // the workers (rather than by the single result handler) would lose updates now and then
+    c.h = AddHist();
+    c.h.cfg.comp = chance(50) ? 0 : 1;
+    c.h.cfg.block_size = 1024;
+    c.h.cfg.pool = 8;
+    int nblk = pick(1500, 4000);
+    for (int i = 0; i < nblk; i++) {
+      SEntry e;
+      char k[16];
+      snprintf(k, sizeof k, "b%06d", i);
+      e.k = BStr::of(bytes(k));
+      e.v.glen = 1100;
+      e.v.gseed = (uint32_t)i;
+      c.h.adds.push_back(e);
+    }
+    c.exec_tool = false;
+    return c;
+  }
   if (chance(4)) {
     // the writer starts far into a sparse file: offsets beyond 2^31 and 2^32
     c.h.cfg.sparse_off = one_of<unsigned long long>({(1ull << 31) - 100, (1ull << 31) + 5, 3ull << 30, (1ull << 32) + 4096});
